@@ -110,6 +110,10 @@ def parse_telegram_url(url):
                 else:
                     return None
 
+            # NOTE: an empty path segment is not a name
+            elif not path[1]:
+                return None
+
             elif len(path) == 3 and is_telegram_message_id(path[2]):
                 return TelegramMessage(name=path[1], id=path[2])
 
